@@ -2,4 +2,5 @@ import ArroyProofs.AuditCmd
 import ArroyProofs.Properties.C07
 import ArroyProofs.Properties.C07Nns
 import ArroyProofs.Properties.C07History
+import ArroyProofs.Properties.C07BuildLocal
 #audit Arroy.C07
